@@ -245,6 +245,125 @@ theorem C05_series_sound (sel : Labels) (abort : Bool) (dbg : List (List Matcher
         | addr => exact Or.inr (Or.inr (Or.inl rfl))
         | filter => exact Or.inr (Or.inr (Or.inr rfl))
 
+/-! ### with a TSDB selector (`--selector.relabel-config`): `TSDBSelector`, the union of the matched
+  label sets in `matchingStores`, `MatchersForLabelSets` -/
+
+/-- a store whose label sets the selector keeps at least partly takes part -/
+theorem matchLabelSets_of_kept (sel : Selector) (sets : List Labels) (e : Labels) (he : e ∈ sets)
+    (hk : sel.isNil = true ∨ sel.keep e = true) :
+    (matchLabelSets sel sets).1 = true ∧ (sel.isNil = false → e ∈ (matchLabelSets sel sets).2) := by
+  unfold matchLabelSets
+  rcases hk with hk | hk
+  · simp [hk]
+  · have hne : sets.isEmpty = false := by cases sets <;> simp_all
+    cases hn : sel.isNil with
+    | true => simp
+    | false =>
+      have hmem : e ∈ sets.filter sel.keep := List.mem_filter.mpr ⟨he, hk⟩
+      have : (sets.filter sel.keep).isEmpty = false := by
+        cases hf : sets.filter sel.keep with
+        | nil => rw [hf] at hmem; simp at hmem
+        | cons _ _ => rfl
+      simp [hne, this, hmem]
+
+theorem matchLabelSets_sub (sel : Selector) (sets : List Labels) :
+    ∀ e ∈ (matchLabelSets sel sets).2, e ∈ sets := by
+  unfold matchLabelSets
+  split
+  · simp
+  · intro e he; exact (List.mem_filter.mp he).1
+
+theorem matchLabelSets_nil (sel : Selector) (sets : List Labels) (h : sel.isNil = true) :
+    (matchLabelSets sel sets).2 = [] := by
+  simp [matchLabelSets, h]
+
+/-- **C05 with a TSDB selector, end to end.**  A store holding a series that is served under a label
+    set the selector keeps, carries the proxy's selector labels and is selected by the request within
+    the requested time range is sent the request — with the request's forwarded matchers *and* the
+    matchers generated for the union of the selected label sets still selecting that series — unless it
+    was excluded by the debug store matchers or its own filter (or the request was rejected as a whole).
+    `hclash`: the series has no label of its own under an external-label name its label set lacks
+    (external label names are a namespace of their own). -/
+theorem C05_selector_sound (sel : Selector) (selLabels : Labels) (abort : Bool) (dbg : List (List Matcher))
+    (cs : List Client) (mint maxt : Int) (ms : List Matcher)
+    (i : Nat) (c : Client) (raw : List Series) (r : Series) (e : Labels)
+    (hi : cs[i]? = some c) (wf : ∀ e ∈ c.extSets, WF e) (hc : Contract c raw) (hr : r ∈ raw)
+    (he : e ∈ c.extSets) (hkeep : sel.isNil = true ∨ sel.keep e = true)
+    (hcar : Carries (extend r.lbls e) selLabels)
+    (hsel : selects ms mint maxt { r with lbls := extend r.lbls e } = true)
+    (hclash : ∀ n ∈ labelNames (cs.flatMap (·.extSets)), has e n = false → get (extend r.lbls e) n = "") :
+    match seriesDecisionSel sel selLabels abort dbg cs mint maxt ms with
+    | .nomatch => False
+    | .invalid => True
+    | .unavailable => True
+    | .queried idx kept extra =>
+        (i ∈ idx ∧ selects (kept ++ extra) mint maxt { r with lbls := extend r.lbls e } = true) ∨
+        otherReason (storeMatches dbg c mint maxt kept) := by
+  unfold seriesDecisionSel
+  have hs : ({ r with lbls := extend r.lbls e } : Series) ∈ served c raw := by
+    unfold served
+    have hne : c.extSets.isEmpty = false := by cases h : c.extSets <;> simp_all
+    simp only [hne, Bool.false_eq_true, if_false, List.mem_flatMap, List.mem_map]
+    exact ⟨e, he, r, hr, rfl⟩
+  have hme := matchesExternalLabels_sound ms selLabels (extend r.lbls e) hcar
+  have hall : matchAll ms (extend r.lbls e) = true := by
+    simp only [selects, Bool.and_eq_true] at hsel; exact hsel.1
+  cases hk : matchesExternalLabels ms selLabels with
+  | none =>
+    have := hme.1 hk
+    rw [hall] at this; simp at this
+  | some kept =>
+    simp only
+    by_cases h1 : kept.isEmpty = true
+    · simp [h1]
+    · by_cases h2 : (cs.isEmpty && abort) = true
+      · simp [h1, h2]
+      · simp only [h1, h2]
+        have hspec := selStores_spec sel dbg mint maxt kept cs 0 i
+        generalize selStores sel dbg mint maxt kept 0 cs = st at hspec
+        obtain ⟨idx, union⟩ := st
+        simp only at hspec ⊢
+        have hkept : selects kept mint maxt { r with lbls := extend r.lbls e } = true := by
+          simp only [selects, Bool.and_eq_true] at hsel ⊢
+          exact ⟨by rw [hme.2 kept hk]; exact hall, hsel.2⟩
+        have hml := matchLabelSets_of_kept sel c.extSets e he hkeep
+        cases hr' : storeMatches dbg c mint maxt kept with
+        | ok =>
+          left
+          have hidx : i ∈ idx := hspec.1.mpr ⟨c, Nat.zero_le _, by simpa using hi, hml.1, hr'⟩
+          refine ⟨hidx, ?_⟩
+          simp only [selects, Bool.and_eq_true] at hkept ⊢
+          refine ⟨?_, hkept.2⟩
+          rw [matchAll_append, hkept.1, Bool.true_and]
+          cases hn : sel.isNil with
+          | true =>
+            -- the default selector adds no matcher
+            have : union = [] := by
+              cases hu : union with
+              | nil => rfl
+              | cons x _ =>
+                obtain ⟨c', _, hx⟩ := hspec.2.2 x (by rw [hu]; simp)
+                rw [matchLabelSets_nil sel _ hn] at hx; simp at hx
+            rw [this]; simp [matchersForLabelSets, labelNames, matchAll]
+          | false =>
+            have heu : e ∈ union := hspec.2.1 c (Nat.zero_le _) (by simpa using hi) hidx e (hml.2 hn)
+            apply matchAll_matchersForLabelSets union e heu
+            · intro n hh; exact get_extend_of_has e r.lbls n (wf e he) hh
+            · intro n hn' hh
+              apply hclash n _ hh
+              obtain ⟨ls, hls, hhas⟩ := mem_labelNames.mp hn'
+              obtain ⟨c', hc', hx⟩ := hspec.2.2 ls hls
+              exact mem_labelNames.mpr ⟨ls, List.mem_flatMap.mpr ⟨c', hc', matchLabelSets_sub sel _ ls hx⟩, hhas⟩
+        | time =>
+          have := C05_sound dbg c mint maxt kept raw (Or.inl hr') wf hc _ hs
+          rw [hkept] at this; simp at this
+        | extlabels =>
+          have := C05_sound dbg c mint maxt kept raw (Or.inr hr') wf hc _ hs
+          rw [hkept] at this; simp at this
+        | localStore => exact Or.inr (Or.inl hr')
+        | addr => exact Or.inr (Or.inr (Or.inl hr'))
+        | filter => exact Or.inr (Or.inr (Or.inr hr'))
+
 /-! ### regenerated facts: the conditions in the sources are the ones the model transliterates -/
 
 /-- `storeMatches`: `if mint > c.maxt ∨ maxt < c.mint then .time` -/
@@ -256,6 +375,13 @@ theorem C05_fact_empty : Thanos.Facts.pruneEmptySetsCond = "len(lset) == 0" := b
 /-- `matchesExternalLabels`: `if ev = "" then keep` / `else if !(tm.matches ev) then none` in `extLoop` -/
 theorem C05_fact_ext : Thanos.Facts.pruneExtAgnosticCond = "extValue == \"\"" ∧
     Thanos.Facts.pruneExtRejectCond = "!tm.Matches(extValue)" := by decide
+
+/-- TSDB selector: `MatchLabelSets` has the single early return of `matchLabelSets`, every matched
+    label set of a selected store enters the union (`selStores`), values are quoted (`selMatcher`) -/
+theorem C05_fact_selector :
+    Thanos.Facts.selMatchLabelSetsConds = ["sr.relabelConfig == nil || len(labelSets) == 0"] ∧
+    Thanos.Facts.selValueInsert = ["labelNameValues[l.Name][regexp.QuoteMeta(l.Value)] = struct{}{}"] ∧
+    Thanos.Facts.selUnionAppend = ["storeLabelSets = append(storeLabelSets, extraMatchers...)"] := ⟨rfl, rfl, rfl⟩
 
 /-! ### non-vacuity: concrete stores, matchers and decisions -/
 
@@ -284,5 +410,14 @@ example : (matchesExternalLabels [mEq "region" "y", mEq "job" "api"] [("region",
 -- end to end: store 1 is skipped by time, store 0 is asked
 example : (match seriesDecision [] true [] [stA, { stA with mint := 500, maxt := 600 }] 10 20 [mEq "cluster" "eu"] with
     | .queried idx _ => idx | _ => [99]) = [0] := by decide
+
+-- TSDB selector: store 0 = {tenant="a+b"} fully kept, store 1 = {tenant="b1"} kept / {tenant="b2"} dropped:
+-- both are asked, with tenant=~"a\\+b|b1" (quoted) — the situation `C05_selector_sound` is about
+private def selEx : Selector := { isNil := false, keep := fun ls => !(get ls "tenant" = "b2") }
+private def stT (vs : List String) : Client :=
+  { mint := 0, maxt := 100, filterOK := true, isLocal := false, addr := "s", extSets := vs.map (fun v => [("tenant", v)]) }
+example : (match seriesDecisionSel selEx [] false [] [stT ["a+b"], stT ["b1", "b2"]] 0 50 [mEq "job" "x"] with
+    | .queried idx _ extra => (idx, extra.map (fun m => (m.name, m.value))) | _ => ([], [])) = ([0, 1], [("tenant", "a\\+b|b1")]) := by decide
+example : (selMatcher [[("tenant", "a+b")], [("tenant", "b1")]] "tenant").matches "a+b" = true := by decide
 
 end Thanos.Prune
